@@ -17,9 +17,9 @@ import (
 type callSite struct {
 	Call *ast.CallExpr
 	Pk   *packages.Package
-	Decl *ast.FuncDecl     // enclosing declaration
-	Body *ast.BlockStmt    // innermost enclosing function body (FuncLit body or Decl.Body)
-	Lit  *ast.FuncLit      // innermost enclosing literal, or nil
+	Decl *ast.FuncDecl  // enclosing declaration
+	Body *ast.BlockStmt // innermost enclosing function body (FuncLit body or Decl.Body)
+	Lit  *ast.FuncLit   // innermost enclosing literal, or nil
 }
 
 // callSitesOf finds every static call to f in the repo's non-test code.
@@ -111,18 +111,18 @@ func stripPtr(e ast.Expr) ast.Expr {
 }
 
 type b1 struct {
-	c        *Ctx
-	isSet    *types.Func
-	read     *types.Func
-	bei      *types.Func
-	bodyF    *types.Var
-	rawGet   *types.Func // (*directive.Directives).GetValue
-	utField  *types.Var  // core.JApiCore.userTypes
-	utGet    *types.Func // (*catalog.UserSchemas).GetValue
-	utEach   *types.Func
-	utSet    *types.Func
-	invOK    bool
-	invWhy   string
+	c       *Ctx
+	isSet   *types.Func
+	read    *types.Func
+	bei     *types.Func
+	bodyF   *types.Var
+	rawGet  *types.Func // (*directive.Directives).GetValue
+	utField *types.Var  // core.JApiCore.userTypes
+	utGet   *types.Func // (*catalog.UserSchemas).GetValue
+	utEach  *types.Func
+	utSet   *types.Func
+	invOK   bool
+	invWhy  string
 }
 
 // RuleB1: body-coordinates typestate.
